@@ -372,18 +372,18 @@ class Analysis:
     # -- checks on the surrounding code ----------------------------------------------------------
     def post_checks(self):
         for meth in self.methods[1:]:
-            if meth.is_generator:
-                for st in meth.stmts:
-                    if st[0] == "write" or (st[0] == "call" and
-                                            self.methods[st[2]].writes_recv):
-                        raise TranslateError(
-                            "effects: generator %s has effects (its body runs interleaved with "
-                            "its consumer; the IR accounts for it at the call)" % meth.name)
+            if meth.is_generator and meth.writes_recv and not meth.pub:
+                # (a public generator that writes its receiver is rejected by `allOk` anyway)
+                raise TranslateError(
+                    "effects: the private generator %s writes its receiver; its body runs "
+                    "interleaved with its consumer, which the IR (effects at the call) does "
+                    "not express" % meth.name)
             self.global_updates |= meth.global_updates
         all_slots = set()
         for names in self.slots.values():
             all_slots.update(names)
-        mutators = set(m.short for m in self.methods[1:] if m.writes_recv) | {
+        # (public methods that write their receiver are rejected by `allOk`; entry 0 may call them)
+        mutators = set(m.short for m in self.methods[1:] if m.writes_recv and not m.pub) | {
             "__init__", "__setattr__", "__delattr__", "__setstate__"}
         pkg = os.path.dirname(self.path)
         for fname in sorted(os.listdir(pkg)):
@@ -1174,8 +1174,8 @@ ASSUMPTIONS = [
     "operator.*) uses the objects it is handed through public methods and attribute reads only "
     "(entry 0); the translator scans the package for attribute stores to slot names, setattr, "
     "__dict__ and calls of mutators and fails if it finds one",
-    "a generator's body is accounted for at the call that creates it (generators with effects "
-    "are rejected)",
+    "a generator's body is accounted for at the call that creates it; it may write objects it "
+    "allocates itself, never its receiver (public: checked by allOk; private: rejected)",
     "module-level containers updated by methods are outside the four value types: %s",
 ]
 
